@@ -91,6 +91,8 @@ def form_of(X, form):
 
 
 def fit_case(case):
+    if len(case) == 6:          # history axis: the same estimator was first fitted on data of another shape
+        return refit_case(case)
     name, spec, shape, form, seed = case
     n, d = shape
     Xc = seams.tiny_data(n, d, seed + 17)
@@ -153,6 +155,42 @@ def fit_case(case):
             "stats": {"evals": 1}, "sample": {"estimator": name, "spec": spec, "shape": shape, "form": form}}
 
 
+def refit_case(case):
+    """fit on shape A, then the same (valid) configuration is fitted on shape B: the second fit must succeed and be coherent."""
+    name, spec, shape_a, shape_b, seed, _ = case
+    Xa = seams.tiny_data(shape_a[0], shape_a[1], seed + 17)
+    Xb = seams.tiny_data(shape_b[0], shape_b[1], seed + 18)
+    model, ya, _ = C.build(name, spec, Xa, seed)
+    _, yb, expect = C.build(name, spec, Xb, seed)
+    where = dict(estimator=name, deviating=sorted(k for k in spec if k != "random_state"), first_shape=list(shape_a), second_shape=list(shape_b), history="refit")
+    v = []
+    import copy
+    params_before = copy.deepcopy({k: repr(v_) for k, v_ in model.get_params(deep=False).items()})
+    try:
+        model.fit(Xa, ya)
+        model.fit(Xb, yb)
+    except Exception as e:  # noqa
+        import traceback
+        return {"v": [violation("fit_raises_on_valid_configuration", {"spec": spec, "error": repr(e)[:300], "trace": traceback.format_exc()[-500:]},
+                                exc=type(e).__name__, **where)], "stats": {"evals": 1}}
+    n = shape_b[0]
+    labs = np.asarray(model.labels_)
+    K = spec.get("max_clusters", 3) if name == "Kauri" else spec.get("n_clusters", 3)
+    if labs.shape != (n,) or labs.min() < 0 or labs.max() >= K:
+        v.append(violation("labels_wrong_shape_or_range", {"labels": labs}, **where))
+    if not np.array_equal(model.predict(Xb), labs):
+        v.append(violation("predict_does_not_reproduce_labels", {"labels_": labs}, **where))
+    if name != "Kauri":
+        P = model.predict_proba(Xb)
+        if P.shape != (n, K) or not np.allclose(P.sum(1), 1, atol=1e-9) or np.any(P < 0):
+            v.append(violation("predict_proba_rows_not_probability_vectors", {"P": P}, **where))
+    params_after = {k: repr(v_) for k, v_ in model.get_params(deep=False).items()}
+    if params_after != params_before:
+        diff = {k: (params_before[k], params_after[k]) for k in params_before if params_before[k] != params_after[k]}
+        v.append(violation("fit_modified_constructor_hyperparameters", {"changed": diff}, **where))
+    return {"v": v, "nt": [case], "stats": {"evals": 1}, "sample": {"estimator": name, "spec": spec, "first": shape_a, "then": shape_b}}
+
+
 def explorers(tier, seed):
     thorough = tier == "thorough"
     cases = []
@@ -181,9 +219,21 @@ def explorers(tier, seed):
                         if name == "Kauri" and 2 * s.get("min_samples_leaf", 1) > s.get("min_samples_split", 2):
                             continue
                         cases.append((name, s, shape, "float64", seed))
+    # history axis: fit on one shape, then on a narrower / wider / shorter one (default configuration and group/mask variants)
+    for name in M.ESTIMATORS:
+        variants = [{}]
+        if name in M.SPARSE:
+            variants += [{"groups": [[0]]}, {"groups": [[0, 1]]}, {"alpha": 1.0}]
+        if name == "Douglas":
+            variants += [{"n_cuts": 2}]
+        if name == "Kauri":
+            variants += [{"max_features": 1}, {"max_leaves": 3}]
+        for var in variants:
+            for a, b in (((6, 3), (4, 2)), ((4, 2), (6, 3)), ((6, 3), (3, 3)), ((3, 2), (6, 2))):
+                cases.append((name, dict({"random_state": seed}, **var), a, b, seed, "refit"))
     return [Explorer("valid_configurations", "props.c04", "fit_case", cases, chunk=16, floor=500, case_timeout=600,
                      rule="all 18 estimators x data shapes {(3,1),(4,2),(6,3)} x every single-axis deviation from the default over the documented axes "
                           "(13 GEMINI names + instances + None, solver, every batch size 1..n+1, every n_clusters 1..n, kernel/metric menus incl. "
                           "callable/precomputed, ovo, reg, groups, alpha, M, dynamic, n_cuts, temperature, feature_mask, tree limits) + two-axis deviations on "
-                          "coupled axes (all pairs in thorough) + input forms {C, Fortran, int64, float32, nested list}; non-trivial = fit ending with >=2 clusters",
+                          "coupled axes (all pairs in thorough) + input forms {C, Fortran, int64, float32, nested list} + refits of the same configuration on narrower / wider / shorter data; non-trivial = fit ending with >=2 clusters",
                      bound="deviation bound 1 everywhere, 2 on coupled axes (quick) / all axis pairs (thorough)")]
